@@ -3,7 +3,12 @@ package main
 import (
 	"encoding/json"
 	"fmt"
+	"go/ast"
+	"go/parser"
+	"go/token"
+	"path/filepath"
 	"sort"
+	"strconv"
 	"strings"
 
 	"github.com/zmap/zlint/v3/lint"
@@ -14,6 +19,37 @@ import (
 // which is exactly what the obligations catch.
 var declaredSources = []string{"Unknown", "RFC3279", "RFC5280", "RFC5480", "RFC5891", "RFC6960", "RFC6962", "RFC8813",
 	"CABF_BR", "CABF_CS_BR", "CABF_SMIME_BR", "CABF_EV", "Mozilla", "Apple", "Community", "ETSI_ESI"}
+
+// sourceConstants: the string constants of type LintSource declared in v3/lint/source.go of the tree under check
+// (added to the hand-written list above, so that a newly declared source is a source for this check too)
+func sourceConstants() []string {
+	fset := token.NewFileSet()
+	f, err := parser.ParseFile(fset, filepath.Join(repoDir(), "v3", "lint", "source.go"), nil, 0)
+	if err != nil {
+		return nil
+	}
+	var out []string
+	for _, d := range f.Decls {
+		gd, ok := d.(*ast.GenDecl)
+		if !ok || gd.Tok != token.CONST {
+			continue
+		}
+		for _, sp := range gd.Specs {
+			vs := sp.(*ast.ValueSpec)
+			if id, ok := vs.Type.(*ast.Ident); !ok || id.Name != "LintSource" {
+				continue
+			}
+			for _, v := range vs.Values {
+				if bl, ok := v.(*ast.BasicLit); ok && bl.Kind == token.STRING {
+					if str, err := strconv.Unquote(bl.Value); err == nil {
+						out = append(out, str)
+					}
+				}
+			}
+		}
+	}
+	return out
+}
 
 func fromStringAccepts(s string) (bool, string) {
 	var src lint.LintSource
@@ -61,6 +97,11 @@ func init() {
 		for _, l := range g.OcspResponseLints().Lints() {
 			metaSrc[string(l.Source)] = true
 		}
+		for _, c := range sourceConstants() {
+			if !contains(declaredSources, c) {
+				declaredSources = append(declaredSources, c)
+			}
+		}
 		cands := map[string]bool{}
 		for _, s := range listed {
 			cands[s] = true
@@ -93,6 +134,25 @@ func init() {
 				accepted = append(accepted, s)
 				if got != strings.TrimSpace(s) {
 					out.Violate("fromstring-maps:"+s, "FromString maps an accepted string to a different source", s, s, got)
+				}
+				// an accepted string is a source: one of the declared constants - otherwise selecting by it silently
+				// selects nothing (no lint carries it) instead of being rejected
+				if !contains(declaredSources, got) && !metaSrc[got] {
+					out.Violate("fromstring-accepts-nonsource:"+s, fmt.Sprintf("the source parser accepts %q and yields the source %q, which is no declared source and which no lint carries: a selection by it is silently empty instead of an error", s, got), s, "rejected", got)
+				}
+				// and selecting by it selects exactly the lints that carry it
+				if ok2, lst, _ := parseSourceList(s); ok2 && len(lst) == 1 {
+					if fr, e := g.Filter(lint.FilterOptions{IncludeSources: lint.SourceList{lint.LintSource(lst[0])}}); e == nil {
+						want := 0
+						for _, n := range g.Names() {
+							if src, ok3 := sourceOfLint(g, n); ok3 && src == strings.TrimSpace(s) {
+								want++
+							}
+						}
+						if len(fr.Names()) != want {
+							out.Violate("source-selects-wrong-set:"+s, fmt.Sprintf("IncludeSources parsed from %q selects %d lints, %d lints carry that source", s, len(fr.Names()), want), s, want, len(fr.Names()))
+						}
+					}
 				}
 			}
 		}
@@ -357,4 +417,17 @@ func contains(l []string, s string) bool {
 		}
 	}
 	return false
+}
+
+func sourceOfLint(g lint.Registry, n string) (string, bool) {
+	if l := g.CertificateLints().ByName(n); l != nil {
+		return string(l.Source), true
+	}
+	if l := g.RevocationListLints().ByName(n); l != nil {
+		return string(l.Source), true
+	}
+	if l := g.OcspResponseLints().ByName(n); l != nil {
+		return string(l.Source), true
+	}
+	return "", false
 }
